@@ -267,7 +267,81 @@ def r05_7(chk, P):
         chk.ob('R05.7', F.name, f'digit-below-radix#{i}', ok, F.where(e), f'{F.s(e)[:70]}: digit {dv}')
 
 
+def r05_8(chk, P):
+    chk.rule('R05.8', 'submap bundles pair each slot with one channel, identically in encoder and decoder: in every block guarded '
+             'by info->chmuxlist[J]==I (mapping0_forward, mapping0_inverse) the arrays written are indexed by one slot counter '
+             '(not J), and every other array read with a local index is read at J (the channel being placed) or I (the submap): '
+             'the non-zero flag and the vector put into a slot belong to the same channel, which is what makes the residue '
+             'partition walk of _01forward and _01inverse cover the same channels')
+    n = 0
+    for F in P.functions():
+        if not F.file.endswith('lib/mapping0.c'):
+            continue
+        guards = {}
+        for b, blk in F.blocks.items():
+            t = blk.get('term')
+            if not t or t.get('cond') is None or len(blk['succs']) != 2:
+                continue
+            c = F.ex[F.strip_casts(t['cond'])]
+            if c['k'] != 'bin' or c['op'] != '==':
+                continue
+            for x, y in ((c['c'][0], c['c'][1]), (c['c'][1], c['c'][0])):
+                sx, sy = F.ex[F.strip_casts(x)], F.ex[F.strip_casts(y)]
+                if sx['k'] == 'sub' and sy['k'] == 'ref':
+                    base = F.ex[F.strip_casts(sx['c'][0])]
+                    idx = F.ex[F.strip_casts(sx['c'][1])]
+                    if base['k'] == 'member' and base.get('field') == 'chmuxlist' and idx['k'] == 'ref':
+                        guards[t['cond']] = (idx['decl'].get('id'), sy['decl'].get('id'))
+        for gi, (cond, (J, I)) in enumerate(sorted(guards.items(), key=lambda kv: F.ex[kv[0]].get('loc') or [0, 0])):
+            inside = [e for e in F.pos if any(c_ == cond and pol for c_, pol in common.controlling_conditions(F, e))]
+
+            def local_index(sub):
+                ix = F.ex[F.strip_casts(F.ex[sub]['c'][1])]
+                if ix['k'] == 'un' and ix['op'] in ('post++', 'pre++', 'post--', 'pre--'):
+                    ix = F.ex[F.strip_casts(ix['c'][0])]
+                if ix['k'] == 'ref' and ix['decl'].get('kind') in ('var', 'param'):
+                    return ix['decl'].get('id')
+                return None
+
+            def base_text(sub):
+                return F.s(F.strip_casts(F.ex[sub]['c'][0]))
+            writes, reads = {}, {}
+            for e in inside:
+                nd = F.ex[e]
+                if nd['k'] != 'sub':
+                    continue
+                ix = local_index(e)
+                if ix is None:
+                    continue
+                # written when it is the (cast-stripped) left operand of an assignment
+                wr = any(F.ex[a]['k'] == 'assign' and F.strip_casts(F.ex[a]['c'][0]) == e for a in inside)
+                (writes if wr else reads).setdefault(base_text(e), set()).add((e, ix))
+            bad = []
+            slots = {ix for v in writes.values() for (_, ix) in v}
+            if J in slots:
+                bad.append('an array is written at the channel index inside the bundle guard')
+            if len(slots - {J}) > 1:
+                bad.append(f'the bundle arrays are written with {len(slots)} different slot counters')
+            first = None
+            for bt, v in sorted(reads.items()):
+                for (e, ix) in sorted(v):
+                    if bt in writes and ix in slots:
+                        continue          # reading back a slot array at the slot
+                    if ix not in (J, I):
+                        bad.append(f'{F.s(e)} is read at {F.vars.get(ix, {}).get("name", "?")}, not at the channel index '
+                                   f'{F.vars.get(J, {}).get("name", "?")}')
+                        first = first or e
+            chk.ob('R05.8', F.name, f'bundle-slot-pairs-one-channel#{gi}', not bad,
+                   F.where(first) if first else F.where(cond),
+                   f'{sum(len(v) for v in writes.values())} slot writes, {sum(len(v) for v in reads.values())} channel reads' if not bad
+                   else '; '.join(bad))
+            n += 1
+    return n
+
+
 def run(chk, P):
+    r05_8(chk, P)
+    chk.floor('R05.8', 2)
     npairs, nfields = r05_1(chk, P)
     chk.floor('R05.1', 40)
     r05_3(chk, P)
